@@ -12,10 +12,12 @@ import (
 
 	"github.com/ngicks/gokugen/cron"
 	"github.com/ngicks/gokugen/def"
+	"github.com/ngicks/gokugen/mutator"
 	"github.com/ngicks/gokugen/repository"
 	"github.com/ngicks/gokugen/repository/inmemory"
 	"github.com/ngicks/gokugen/scheduler"
 	"github.com/ngicks/und/option"
+	robfig "github.com/robfig/cron/v3"
 
 	"verifharness/internal/proto"
 	"verifharness/internal/rng"
@@ -39,6 +41,7 @@ type schedWorld struct {
 	target scheduler.Repository
 	cron   *cron.CronStore
 	cents  []cronEnt
+	entLn  []string // cron configuration: `ent` lines (entry definitions + occurrence oracle) for the model
 
 	// injections for the scheduler call about to happen (per Step): call index -> items
 	inj     map[int][]string
@@ -77,35 +80,81 @@ func newSchedCronWorld(workers int, r *rng.R) *schedWorld {
 	exprs := []string{"*/5 * * * *", "0 */5 * * * *", "30 */5 * * * *", "@every 7m", "*/10 * * * *"}
 	for i := 1; i <= 4; i++ {
 		sched, raw, _ := parseCronExpr(rng.Pick(r, exprs))
-		_ = sched
 		p := def.TaskUpdateParam{WorkId: option.Some("w" + strconv.Itoa(i)), Priority: option.Some(r.Intn(3) - 1)}
 		row, err := cron.RowRaw{Param: p, Schedule: raw}.Parse()
 		if err != nil {
 			continue
 		}
 		w.cents = append(w.cents, cronEnt{name: "e" + strconv.Itoa(i), entry: cron.NewEntry(T0, row)})
+		w.entLine("e"+strconv.Itoa(i), p, sched, row)
 	}
 	// e5: same identity as e1 (rejected while e1 is stored); e6: undecodable mutator metadata (always rejected)
 	if len(w.cents) >= 1 {
-		_, raw, _ := parseCronExpr("*/5 * * * *")
+		sched5, raw, _ := parseCronExpr("*/5 * * * *")
 		p1 := def.TaskUpdateParam{WorkId: option.Some("w1")}
 		if row, err := (cron.RowRaw{Param: p1, Schedule: raw}).Parse(); err == nil {
 			w.cents[0] = cronEnt{name: "e1", entry: cron.NewEntry(T0, row)}
 			w.cents = append(w.cents, cronEnt{name: "e5", entry: cron.NewEntry(T0, row)})
+			w.dropEntLine("e1")
+			w.entLine("e1", p1, sched5, row)
+			w.entLine("e5", p1, sched5, row)
 		}
 		pb := def.TaskUpdateParam{WorkId: option.Some("w6"), Meta: option.Some(map[string]string{"ngicks.RandomizeScheduledAt.min": "abc"})}
 		if row, err := (cron.RowRaw{Param: pb, Schedule: raw}).Parse(); err == nil {
 			w.cents = append(w.cents, cronEnt{name: "e6", entry: cron.NewEntry(T0, row)})
+			w.entLine("e6", pb, sched5, row)
 		}
 	}
 	st, _ := cron.NewCronStore(nil)
 	st.VerifSetClock(w.clk)
 	w.cron = st
 	st.EditTask(func(_ []*cron.Entry) []*cron.Entry { return []*cron.Entry{w.cents[0].entry, w.cents[1].entry} })
+	w.entLn = append(w.entLn, "newstore "+proto.Time(T0)+" "+proto.Str(w.cents[0].name)+","+proto.Str(w.cents[1].name)+" -> ok")
 	w.target = scheduler.NewVolatileTaskRepo(&volProxy{CronStore: st, w: w})
 	w.sch = scheduler.NewScheduler(&schedProxy{w}, &simDispatcher{w})
 	w.sch.VerifSetClock(w.clk)
 	return w
+}
+
+// entLine records the definition of a cron entry and its occurrence oracle (computed from the parsed
+// schedule, independently of the store) for the model.
+func (w *schedWorld) entLine(name string, p def.TaskUpdateParam, sched robfig.Schedule, row cron.Row) {
+	var occ []string
+	t := T0
+	for i := 0; i < 120; i++ {
+		t = sched.Next(t)
+		if t.IsZero() {
+			break
+		}
+		occ = append(occ, proto.Time(t))
+	}
+	meta := p.Meta.Value()
+	w.entLn = append(w.entLn, fmt.Sprintf("ent %s %s %s %s %s %s %d %s", proto.Str(name), proto.Time(T0), proto.Str(row.ScheduleHash()),
+		proto.Param(p), oracleTokens(meta, mutator.LabelRandomizeScheduledAtMin),
+		oracleTokens(meta, mutator.LabelRandomizeScheduledAtMax), len(occ), strings.Join(occ, " ")))
+}
+
+func (w *schedWorld) dropEntLine(name string) {
+	out := w.entLn[:0]
+	for _, l := range w.entLn {
+		if !strings.HasPrefix(l, "ent "+proto.Str(name)+" ") {
+			out = append(out, l)
+		}
+	}
+	w.entLn = out
+}
+
+// cstLine: cron configuration: clock state and the pending schedule, for the model.
+func (w *schedWorld) cstLine() {
+	if w.cron == nil {
+		return
+	}
+	armed, dl, pending := w.clk.State()
+	a := "-"
+	if armed {
+		a = proto.Time(dl)
+	}
+	w.log(fmt.Sprintf("cst -> %s %s %s %s", proto.Time(w.clk.Now()), a, b01(pending), proto.Tasks(w.cron.Schedule())))
 }
 
 func (w *schedWorld) setHookFault(b bool) {
@@ -118,6 +167,7 @@ func (w *schedWorld) log(s string) { w.out = append(w.out, s) }
 
 func (w *schedWorld) stLine() {
 	if w.cron != nil {
+		w.cstLine()
 		return
 	}
 	armed, dl, pending := w.clk.State()
@@ -171,6 +221,7 @@ func (w *schedWorld) userOp(tok []string) {
 			return keep
 		})
 		w.log("u " + strings.Join(tok, " ") + " -> " + proto.Res(err))
+		w.cstLine()
 		return
 	}
 	w.core.failNext = tok[1] != "-"
@@ -368,14 +419,23 @@ type volProxy struct {
 func (v *volProxy) Peek(ctx context.Context) (def.Task, error) {
 	v.w.before()
 	t, err := v.CronStore.Peek(ctx)
-	v.w.log("q peek - -> " + proto.Res(err))
+	if err == nil {
+		v.w.log("q peek - -> ok " + proto.Task(t))
+	} else {
+		v.w.log("q peek - -> " + proto.Res(err))
+	}
 	return t, err
 }
 
 func (v *volProxy) Pop(ctx context.Context) (def.Task, error) {
 	v.w.before()
 	t, err := v.CronStore.Pop(ctx)
-	v.w.log("q pop - -> " + proto.Res(err))
+	if err == nil {
+		v.w.log("q pop - -> ok " + proto.Task(t))
+	} else {
+		v.w.log("q pop - -> " + proto.Res(err))
+	}
+	v.w.cstLine()
 	return t, err
 }
 
@@ -706,6 +766,9 @@ func schedExec(h sim.History) []string {
 		seed, _ := strconv.ParseUint(strings.Fields(h.Header)[3], 10, 64)
 		w = newSchedCronWorld(workers, rng.New(seed))
 		w.log(fmt.Sprintf("new schedcron %s %d", proto.Time(T0), workers))
+		for _, l := range w.entLn {
+			w.log(l)
+		}
 	} else {
 		w = newSchedWorld(workers)
 		w.log(fmt.Sprintf("new sched %s %d", proto.Time(T0), workers))
@@ -926,6 +989,9 @@ func cmdSched(args []string) {
 			h := genSchedHistory(r, c.length, *faults, ws, *ties, *cronCfg)
 			return h, schedExec(h)
 		})
+	}
+	if os.Getenv("GKH_DUMP") != "" && len(traces) > 0 {
+		fmt.Fprintln(os.Stderr, strings.Join(traces[0], "\n"))
 	}
 	for _, h := range hists {
 		rep.Ops += len(h.Ops)
